@@ -535,7 +535,8 @@ Lemma qh_front_cases {A} (K : nat -> nat * nat -> nat * nat -> Cres A) (Q : A ->
   (forall c0 r h, w = c0 :: r -> is_eol c0 = true -> 1 <= h <= 2 -> h <= len ->
      skipn h w = after_eol c0 r -> ends_eol (firstn h w) = true ->
      exists res, K h (0, 0) (0, 0) = Ok res /\ Q res) ->
-  (forall hd ct' ce', is_eol (nth 0 w 0%N) = false ->
+  (forall hd o' ct' ce', qh_scan (2 * len + 2) m b len 0 (0, 0) (0, 0) = Ok (hd, o', ct', ce') ->
+     is_eol (nth 0 w 0%N) = false ->
      scan_post m b len hd -> fld_inv2 m b len ct' -> fld_inv2 m b len ce' ->
      (hd <> 0 -> fle hd ce') -> cte_named m b len ce' ->
      exists res, K (if Nat.eqb hd 0 then len else hd) ct' ce' = Ok res /\ Q res) ->
@@ -582,7 +583,7 @@ Proof.
     + split; [left; reflexivity|]. intros Hn. cbn in Hn. contradiction.
     + split; [left; reflexivity|]. intros Hn. cbn in Hn. contradiction.
     + rewrite E. cbn [bind]. cbv beta iota.
-      apply Hscan; try assumption.
+      apply (Hscan hd o' ct' ce' E); try assumption.
       * rewrite Ew. exact He.
       * intros Hnz. apply (qh_scan_mono m b len _ 0 (0, 0) (0, 0) hd o' ct' ce' E Hnz); intros Hn; cbn in Hn; contradiction.
       * apply (qh_scan_cte m b len _ 0 (0, 0) (0, 0) hd o' ct' ce' E). intros Hn. cbn in Hn. contradiction.
@@ -599,7 +600,7 @@ Proof.
   - intros c0 r h Ew He Hh Hhl Hsk Hends.
     destruct (hdr_eol_case c0 r h body_recode st Hg Ew He Hh Hhl Hsk Hends) as (res & Er & Hd).
     rewrite Er. cbn [bind]. eexists. split; [reflexivity|exact Hd].
-  - intros hd ct' ce' Hc0 Hpost Fct Fce Hmono Hnamed.
+  - intros hd o' ct' ce' _ Hc0 Hpost Fct Fce Hmono Hnamed.
     destruct (hdr_scan_case hd 0 ct' ce' body_recode st Hg Hc0 Hpost Fct Fce Hmono Hnamed) as (res & Er & Hd).
     rewrite Er. cbn [bind]. eexists. split; [reflexivity|exact Hd].
   - destruct q as [[[h ct] ce] res]. exists h, ct, ce, res.
